@@ -1,5 +1,6 @@
 /-
-  Props/C14.lean — property theorems for C14 (stub; to be filled in).
+  Props/C14.lean — property theorems for C14 (in progress).
 -/
+import TypedpyModel.Sem.Derive
 namespace Typedpy.C14
 end Typedpy.C14
